@@ -104,7 +104,7 @@ def random_text(rng):
 
 def gen_case(rng, n):
     kind = rng.pick(['traceback', 'traceback', 'traceback', 'syntax', 'truncated', 'concatenated', 'random', 'template', 'empty',
-                     'none', 'bytes', 'int', 'ignored-exc', 'bare-line'])
+                     'none', 'bytes', 'int', 'ignored-exc', 'bare-line', 'many-lines'])
     exp = None
     if kind == 'traceback':
         text, name, msg = real_traceback(rng)
@@ -133,6 +133,11 @@ def gen_case(rng, n):
                          'OSError: cannot read /home/alice/.ssh/id_rsa (uid=1000)', 'note: contact ops@example.com or 10.0.0.7:8080'])
         if rng.chance(0.3):
             text = text + rng.pick(['\n', '\n\n', ' '])
+    elif kind == 'many-lines':
+        # reports of thousands of lines (deep recursion, many chained exceptions, a log): all of it is the text
+        n_lines = rng.pick([1023, 1024, 1025, 1500, 3000])
+        text = rng.pick(['\n'.join('line %d of the report vx7qtext%d' % (i, i) for i in range(n_lines)),
+                         ''.join(real_traceback(rng)[0] for _ in range(n_lines // 20 + 1))])
     elif kind == 'random':
         text = random_text(rng)
     elif kind == 'template':
